@@ -74,7 +74,7 @@ func init() {
 // ---------------------------------------------------------------------------
 // argument generation by parameter type
 
-var anyPool = []string{"C n - - c1 N", "C n - - - N", "C a - - c2 i1", "N", "i7", "i1", "i2", "s78", "b1", "K n k=4 [ i1 ]", "K a k=1 [ ]", "C n - 6b c1 i2", "Z n", "Y n", "o20:1", "o20:5", "o21:1", "o1:1", "s-", "A [ s414e44 i1 ]",
+var anyPool = []string{"C n - - c1 N", "C n - - - N", "C a - - c2 i1", "N", "i7", "i1", "i2", "s78", "b1", "K n k=4 [ i1 ]", "K a k=1 [ ]", "C n - 6b c1 i2", "Z n", "Y n", "o20:1", "o20:5", "o21:1", "o1:1", "s-", "A [ s414e44 i1 ]", "o22:1", "o23:1",
 	// live instances carrying a permissive / a rejecting EqualityPolicy: the receiver's state decides, not the argument's closure
 	"K n k=1,eqf=1 [ ]", "K n k=4,eqf=1 [ i1 ]", "K a k=2,eqf=2 [ ]", "C n eqf=1 6b c1 i2", "C n eqf=1 - - N", "C a eqf=2 6b c1 i2"}
 
@@ -856,8 +856,17 @@ func runFreePol(payload string) string {
 	rec := "-"
 	s.SetPushPolicy(func(x ...any) error {
 		h := s // a copy of the handle: the same instance
+		// a query is a query, whoever holds the lock: Traverse(i) is Index(i), here as anywhere
+		agree := true
+		for i := -1; i <= 2; i++ {
+			x1, ok1 := h.Traverse(i)
+			x2, ok2 := h.Index(i)
+			if ok1 != ok2 || Short(x1) != Short(x2) {
+				agree = false
+			}
+		}
 		err := h.Free()
-		rec = "z" + b01(h.IsZero()) + "e" + b01(err != nil)
+		rec = "z" + b01(h.IsZero()) + "e" + b01(err != nil) + "t" + b01(agree)
 		return nil
 	})
 	var vals []any
